@@ -1,7 +1,7 @@
 import GuppyVerif.Lemmas.C01Store
 /-! `getitem` in an arbitrary `Good` state (cached struct/tuple wires allowed): returns the
     reference value and leaves a `Good` state for the moved-out reference value. -/
-namespace GuppyVerif.Wiring
+namespace GuppyVerif.DFWiring
 
 theorem moveds_get : ∀ (ts : List Ty) (ps : List PVal) (k : Nat) (tk : Ty) (pk' : PVal),
     ts[k]? = some tk → (moveds ts ps)[k]? = some pk' → ∃ pk, ps[k]? = some pk ∧ pk' = moved tk pk
@@ -197,4 +197,4 @@ theorem getitemList_good : ∀ (ts : List Ty) (L : Locals) (n : Nat) (p : PlaceI
   | _ :: _, _, _, _, _, _, [], _, h, _ => by simp [GoodList] at h
 end
 
-end GuppyVerif.Wiring
+end GuppyVerif.DFWiring
